@@ -293,9 +293,15 @@ func (P *Prog) isPtrTo(t types.Type, n *types.Named) bool {
 }
 
 func sameNamed(t types.Type, n *types.Named) bool {
+	if t == nil || n == nil {
+		return false
+	}
+	if tn, ok := t.(*types.Named); ok && tn == nil {
+		return false
+	}
 	t = types.Unalias(t)
 	m, ok := t.(*types.Named)
-	if !ok || n == nil {
+	if !ok || m == nil {
 		return false
 	}
 	return m.Origin().Obj() == n.Origin().Obj()
